@@ -54,6 +54,10 @@ func main() {
 		// adjacent statements of Next that random histories practically never hit.
 		r.Cases("sweep", r.Scale(36, 240), 1, func(c *vkit.Case) { sweep(c) })
 		r.Floor("phase-sweep trials", r.Table("sweep", "trials"), 40000)
+		// Crowd: many senders released together on a small buffer, some with dead contexts, while the
+		// receiver is idle and then closes: every Send must return.
+		r.Cases("crowd", r.Scale(1500, 30000), 1, func(c *vkit.Case) { crowd(c) })
+		r.Floor("crowd rounds", r.Table("crowd", "rounds"), 1000)
 		r.Floor("histories in which a value sent before Close was received after Close was called", r.Table("schedule", "value acked before Close, received after Close call"), 20)
 		r.Floor("histories with a blocked Send released by receiver Close", r.Table("results", "Send closed-pipe"), 20)
 		r.Floor("distinct interleavings", r.Table("schedule", "histories"), int64(n/2))
@@ -546,4 +550,99 @@ func sweep(c *vkit.Case) {
 	_ = sink
 	r.Count("sweep", "trials", trials)
 	r.Count("sweep", fmt.Sprintf("buffer %d ctxMode %d", buffer, ctxMode), trials)
+}
+
+// crowd: n senders (more than the buffer has slots) are released by a barrier on Pipe(buffer);
+// some have an already-cancelled context. Phase 1: the receiver is idle and nothing is closed:
+// every dead-context Send must return by itself (its context has expired). Phase 2: the receiver
+// reads a little and closes: every remaining Send must return. "Never returns" is decided by the
+// goroutine dump.
+func crowd(c *vkit.Case) {
+	r := c.R
+	rnd := c.Rand
+	buffer := []int{1, 2, 8, 8, 16, 32}[rnd.Intn(6)]
+	n := buffer + rnd.Range(1, 12)
+	nDead := rnd.Intn(4)
+	if nDead > n {
+		nDead = n
+	}
+	sender, recv := stream.Pipe[int64](buffer)
+	var gate sync.WaitGroup
+	gate.Add(1)
+	var deadWG, allWG sync.WaitGroup
+	var bad atomic.Value
+	dead, cancel := context.WithCancel(context.Background())
+	cancel()
+	for i := 0; i < n; i++ {
+		i := i
+		isDead := i < nDead
+		spin := rnd.Intn(200)
+		allWG.Add(1)
+		if isDead {
+			deadWG.Add(1)
+		}
+		go func() {
+			defer allWG.Done()
+			if isDead {
+				defer deadWG.Done()
+			}
+			gate.Wait()
+			sink := 0
+			for k := 0; k < spin; k++ {
+				sink += k
+			}
+			_ = sink
+			ctx := context.Background()
+			if isDead {
+				ctx = dead
+			}
+			err := sender.Send(ctx, int64(i+1))
+			switch {
+			case err == nil:
+			case errors.Is(err, stream.ErrClosedPipe):
+			case isDead && errors.Is(err, context.Canceled):
+			default:
+				bad.Store(fmt.Sprintf("Send returned unexpected error %v (dead context: %v)", err, isDead))
+			}
+		}()
+	}
+	gate.Done()
+	params := map[string]any{"buffer": buffer, "senders": n, "dead_ctx_senders": nDead}
+	// phase 1: dead-context senders return on their own
+	deadDone := make(chan struct{})
+	go func() { deadWG.Wait(); close(deadDone) }()
+	if v, dump := vkit.Await(deadDone, vkit.AwaitOpts{Soft: 2 * time.Second, Gap: 200 * time.Millisecond, Hard: 60 * time.Second}); v == vkit.AwaitStuck {
+		c.Violation("send-ignores-expired-ctx", fmt.Sprintf("crowd: %d senders on Pipe(%d), receiver idle, nothing closed: a Send whose context was already cancelled never returned", n, buffer),
+			map[string]any{"params": params, "goroutines": dump})
+		recv.Close()
+		sender.Close(nil)
+		return
+	} else if v == vkit.AwaitInconclusive {
+		r.Inconclusive("crowd: dead-context senders neither returned nor provably parked")
+	}
+	// phase 2: the receiver reads a little, then closes
+	reads := rnd.Intn(3)
+	for k := 0; k < reads; k++ {
+		ctx, cancel := context.WithTimeout(context.Background(), time.Millisecond)
+		_, _ = recv.Next(ctx)
+		cancel()
+	}
+	recv.Close()
+	allDone := make(chan struct{})
+	go func() { allWG.Wait(); close(allDone) }()
+	if v, dump := vkit.Await(allDone, vkit.AwaitOpts{Soft: 2 * time.Second, Gap: 200 * time.Millisecond, Hard: 60 * time.Second}); v == vkit.AwaitStuck {
+		c.Violation("send-stuck-after-receiver-close", fmt.Sprintf("crowd: %d senders released together on Pipe(%d); after the receiver closed, a Send is still blocked forever", n, buffer),
+			map[string]any{"params": params, "goroutines": dump})
+		sender.Close(nil)
+		return
+	} else if v == vkit.AwaitInconclusive {
+		r.Inconclusive("crowd: senders neither returned nor provably parked after the receiver closed")
+	}
+	sender.Close(nil)
+	if b := bad.Load(); b != nil {
+		c.Violation("send-result", "crowd: "+b.(string), params)
+	}
+	r.Eval(1)
+	r.Count("crowd", "rounds", 1)
+	r.Count("crowd", fmt.Sprintf("buffer %d", buffer), 1)
 }
